@@ -16,11 +16,11 @@ from vplib import sexpr, simlib
 from vplib.simlib import SimRunner, Summary, case_line, basic_problems
 
 MANIFEST = dict(
-    category="exploration",
-    text="Schedule exploration only (the Coq protocol model M-Sys and the C03 lemmas quantum_additive / worker_steps_commute are pending): generated confluent process programs are run on the real Environment/Worker/Repl code in a deterministic single-threaded simulator under seeded adversarial schedules (starvation, partial queue visibility), worker counts {1,2,3,5} and quanta {1,2,3,7,1000}, and exhaustively over short schedule prefixes for the smallest scenarios; canonical per-process results must equal the 1-worker/quantum-1000/fair run; any difference, hang, panic or Err is reported with the shrunk (program, configuration, schedule).",
+    category="proof",
+    text="PARTIAL. Coq theorems on the protocol model M-Sys (coq/theories/sys/Proto.v), for every oracle: worker_steps_commute (steps of different workers commute), placement_irrelevant_local (a time slice depends on its worker only through the ghost stamp of a sent message), message conservation, and the kernel-computed refutation of 'a known awaited result is kept' (F72). NOT proved: the global statement schedule_independence (every confluent program yields the same per-process results under every schedule, worker count and quantum) — its ingredients are proved (`schedule_independence_partial`), the global statement is tested on the real code: generated confluent programs under seeded adversarial schedules x worker counts {1,2,3,5} x quanta {1,2,3,7,1000} and exhaustive short schedule prefixes must reproduce the results of the 1-worker/quantum-1000/fair run. The quantum is not a parameter of the model (a time slice is an input), so quantum independence is covered by the exploration only. The model is tied to the code by replaying qv_sim traces through the extracted model with the state compared after every scheduler action.",
     design_ref="§4, §5 C03",
-    note="Trusted: the simulator's transports (harness/src/bin/qv_sim), the schedule abstraction of DESIGN §4 (argued, not proved), generators emit only programs that are confluent by specification. std HashMap iteration order inside /repo is the one source of nondeterminism the simulator does not control; failures are re-run before being reported.",
-    technique="bounded schedule exploration of the real runtime in a deterministic simulator (random walks with starvation bias + exhaustive short prefixes), differential against the fair single-worker run, ddmin-shrunk replays",
+    note="Trusted: Coq kernel, extraction (ExtrOcamlBasic), OCaml driver, the simulator (harness/src/bin/qv_sim), the trace-to-oracle conversion (vplib/simlib.py), the schedule abstraction of DESIGN §4, generators emit only programs that are confluent by specification. Known findings F71, F72.",
+    technique="Coq proof (commutation / placement lemmas on a protocol model) + model/code correspondence by trace replay + bounded schedule exploration of the real runtime, differential against the fair single-worker run",
 )
 
 TEMPLATES = simlib.CONFLUENT + [simlib.t_priority_await]
@@ -174,7 +174,7 @@ def run(ctx):
     })
     if drv:
         nrandom = len(corpus) * 2 + len(progs) * (nsched + 1)
-        step = max(1, nrandom // ctx.n(90, 1500))
+        step = max(1, nrandom // ctx.n(36, 600))
         simlib.correspondence(ctx, exe, drv, [lines[i] for i in range(0, nrandom, step)], lambda s: basic_problems(s))
     if not ok:
         simlib.theorem_broken(ctx, sum(len(v) for k, v in failures.items() if k[2] is None))
